@@ -642,7 +642,7 @@ def conditions(tier):
             if d in ('uint5', 'int8') or not q:
                 for m in ([1] if q else [0, 1, 2]):
                     add(f'C14.setslice[{d},k={k},t={t},m={m}]', h_setslice(d, k, t, m), 'all data x slice x m symbolic values', dtype=d)
-        if d not in ('uintle16', '>H', '<i'):
+        if d not in ('uintle16', '>H', '<i', 'uintbe16', 'intle16', 'int16', 'uintne16', 'intbe24'):
             add(f'C14.count[{d},k=3]', h_count(d, 3), 'all data of 3 items x value', dtype=d)
         add(f'C14.build[{d}]', h_build(d), 'two symbolic values', dtype=d)
     for d in (['uint5', 'int8'] if q else ['uint5', 'int8', 'int3', 'uint1']):
